@@ -149,3 +149,19 @@ def narrow(rng, a, p=0.15):
     if not np.all(np.isfinite(b.astype(float))):
         return a, a, "float64"
     return b, b.astype(float), dt.__name__
+
+
+COUNT_TYPES = [int, np.int64, np.int32, np.intp, np.int16, np.uint8, np.uint16, np.uint32, np.uint64]
+
+
+def count_arg(rng, k, p=0.35):
+    """a count (oversampling factor, number of copies, interval size) the way callers have it at hand: a Python int or,
+    with probability p, a NumPy integer scalar - signed or unsigned, as wide as the column it was read from.
+    Returns (value, type name); the value always equals k."""
+    if rng.uniform() >= p:
+        return int(k), "int"
+    for _ in range(8):
+        t = COUNT_TYPES[int(rng.integers(1, len(COUNT_TYPES)))]
+        if int(k) <= np.iinfo(t).max:
+            return t(k), t.__name__
+    return int(k), "int"
